@@ -281,7 +281,8 @@ class FlowIRExperimentConfiguration:
 
         system_vars = system_vars or {}
         config_patches = config_patches or {}
-        variable_files = list(dict.fromkeys(variable_files or []))
+        # VV: a file which is given more than once takes effect where it is given last (the last one wins)
+        variable_files = list(dict.fromkeys(reversed(variable_files or [])))[::-1]
 
         out_errors = []
         self.file_format = file_format
@@ -482,7 +483,8 @@ class FlowIRExperimentConfiguration:
 
         systemvars = systemvars or {}
         config_patches = config_patches or {}
-        variable_files = list(dict.fromkeys(variable_files or []))
+        # VV: a file which is given more than once takes effect where it is given last (the last one wins)
+        variable_files = list(dict.fromkeys(reversed(variable_files or [])))[::-1]
 
         out_errors = []
 
